@@ -14,7 +14,7 @@ while IFS=$'\t' read -r patch prop expect; do
   if [[ "$patch" == revert_* ]]; then (cd "$D" && patch -R -p1 -s < /verif/selftest/must_fail/$patch) ; else (cd "$D" && patch -p1 -s < /verif/selftest/must_fail/$patch); fi
   if [ $? -ne 0 ]; then echo "SELFTEST-ERROR $patch does not apply"; fail=$((fail+1)); rm -rf "$D"; continue; fi
   out=$(GOVC_TRUSTED_DIR=/verif/trusted GOVC_BASELINE_DIR=/verif/baseline GOVC_KNOWN_FINDINGS=/verif/known_findings.jsonl /verif/bin/govc check "$prop" --repo "$D" --verif "$D.out" 2>&1)
-  if echo "$out" | grep -q "^VIOLATION" && echo "$out" | grep -E "^(FAILED|REGRESSED)" | grep -qF "$expect"; then
+  if echo "$out" | grep -q "^VIOLATION" && echo "$out" | grep -E "^(FAILED|REGRESSED|load:|  .*undefined)" | grep -qF "$expect"; then
     echo "caught   $patch [$prop] $expect"; pass=$((pass+1))
   else
     echo "MISSED   $patch [$prop] expected: $expect"; echo "$out" | grep -E "^(FAILED|REGRESSED|VIOLATION|property|load)" | head -5 | cut -c1-200; fail=$((fail+1))
